@@ -29,6 +29,14 @@ class Unknown:
         return "?%s" % self.tag
 
 
+class MList(list):
+    """A list of a scenario that the interpreted code may change in place (identity and aliasing are kept)."""
+
+
+class MDict(dict):
+    """A dict of a scenario that the interpreted code may change in place."""
+
+
 class Rec:
     """A stand-in for an object of the program inside a constant: its class name and the attributes a scenario gives it."""
 
@@ -103,6 +111,11 @@ class State:
         self.env = dict(env or {})
         self.events = list(events or [])
         self.facts = dict(facts or {})
+
+    # Set by a scenario that hands in MList / MDict / Rec objects.  These objects are shared by all states (in-place changes keep
+    # identity and aliasing, as in the program); this is only meaningful when the evaluation does not fork, so such scenarios accept
+    # a result only when exactly one path comes out.
+    heap = False
 
     def copy(self):
         return State(self.env, self.events, self.facts)
@@ -268,6 +281,20 @@ class Interp:
             for c in cur:
                 out.extend(self.block(s.body, c))
             return out
+        if isinstance(s, ast.Delete) and State.heap:
+            for t in s.targets:
+                if isinstance(t, ast.Subscript) and not isinstance(t.slice, ast.Slice):
+                    base = self.eval(t.value, st)
+                    ks = self.eval(t.slice, st)
+                    if len(base) == 1 and isinstance(base[0][0], Const) and isinstance(base[0][0].v, (MList, MDict)) and len(ks) == 1 \
+                            and isinstance(ks[0][0], Const):
+                        try:
+                            del base[0][0].v[ks[0][0].v]
+                        except Exception as ex:
+                            return [("raise", type(ex).__name__, st, s)]
+                        continue
+                st.events.append(("delete", norm(t), None))
+            return [("next", None, st, None)]
         if isinstance(s, InlineBlock):
             lab = "leave:%s" % getattr(s, "label", "")
             for r in self.block(s.body, st):
@@ -400,9 +427,30 @@ class Interp:
                     self.assign(t, Unknown("unpack"), st)
         elif isinstance(target, ast.Attribute):
             key = self.attr_key(target)
+            if State.heap and not (isinstance(target.value, ast.Name) and target.value.id == self.selfname):
+                base = self.eval(target.value, st)
+                if len(base) == 1 and isinstance(base[0][0], Const) and isinstance(base[0][0].v, Rec):
+                    base[0][0].v.fields[target.attr] = v.v if isinstance(v, Const) else v
+                    st.events.append(("store", norm(target), v))
+                    return None
             if key:
                 st.env[key] = v
             st.events.append(("store", norm(target), v))
+        elif isinstance(target, ast.Subscript) and State.heap and not isinstance(target.slice, ast.Slice):
+            st.events.append(("store", norm(target), v))
+            base = self.eval(target.value, st)
+            ks = self.eval(target.slice, st)
+            if len(base) == 1 and isinstance(base[0][0], Const) and isinstance(base[0][0].v, (MDict, MList)) and len(ks) == 1 \
+                    and isinstance(ks[0][0], Const):
+                try:
+                    base[0][0].v[ks[0][0].v] = v.v if isinstance(v, Const) else v
+                except Exception as ex:
+                    return type(ex).__name__
+                return None
+            if len(base) == 1 and isinstance(base[0][0], Const) and isinstance(base[0][0].v, Rec) and len(ks) == 1 and isinstance(ks[0][0], Const) \
+                    and isinstance(base[0][0].v.fields.get("arguments"), dict):
+                base[0][0].v.fields["arguments"][ks[0][0].v] = v.v if isinstance(v, Const) else v
+                return None
         elif isinstance(target, ast.Subscript):
             st.events.append(("store", norm(target), v))
             # a container built in a local: the variable gets a NEW constant with the item stored
@@ -585,7 +633,15 @@ class Interp:
                 elif len(e.ops) == 1:
                     res.append((compare(e.ops[0], items[0], items[1]), s))
                 else:
-                    res.append((Unknown("cmp"), s))
+                    # a < b < c: the conjunction of the neighbouring comparisons (all operands were evaluated above; for constants
+                    # that is the same as Python's left-to-right evaluation with short-circuit)
+                    vals = [compare(op, items[i], items[i + 1]) for i, op in enumerate(e.ops)]
+                    if all(isinstance(v_, Const) for v_ in vals):
+                        res.append((Const(all(bool(v_.v) for v_ in vals)), s))
+                    elif any(isinstance(v_, Const) and not v_.v for v_ in vals):
+                        res.append((Const(False), s))
+                    else:
+                        res.append((Unknown("cmp"), s))
             return res
         if isinstance(e, ast.IfExp):
             res = []
@@ -634,6 +690,12 @@ class Interp:
                     res.append((v.items[k.v], s))
                 elif isinstance(v, Const) and v.v is None:
                     res.append((Exc("TypeError", e), s))
+                elif isinstance(v, Const) and isinstance(v.v, Rec) and isinstance(k, Const):
+                    args_ = v.v.fields.get("arguments")
+                    if isinstance(args_, dict) and k.v in args_:
+                        res.append((Const(args_[k.v]), s))
+                    else:
+                        res.append((Exc("KeyError", e), s))
                 elif isinstance(v, Const) and isinstance(k, Const):
                     try:
                         res.append((Const(v.v[k.v]), s))
@@ -786,6 +848,18 @@ class Interp:
                                     "sorted": sorted}[f.id](args[0].v)), st)]
                 except Exception as ex:
                     return [(Exc(type(ex).__name__, e), st)]
+        if isinstance(f, ast.Attribute) and isinstance(recv, Const) and isinstance(recv.v, (MList, MDict)) and not kw \
+                and f.attr in ("append", "extend", "insert", "remove", "pop", "clear", "index", "count", "update", "setdefault", "get", "keys",
+                               "values", "items", "copy"):
+            if all(isinstance(a, Const) for a in args):
+                try:
+                    r_ = getattr(recv.v, f.attr)(*[a.v for a in args])
+                    if f.attr in ("keys", "values", "items"):
+                        r_ = list(r_)
+                    return [(Const(r_), st)]
+                except Exception as ex:
+                    return [(Exc(type(ex).__name__, e), st)]
+            return [(Unknown("call:%s" % f.attr), st)]
         if isinstance(f, ast.Attribute) and isinstance(recv, Const) and isinstance(recv.v, list) and f.attr in ("append", "extend") \
                 and len(args) == 1 and not kw and isinstance(f.value, (ast.Name, ast.Attribute)):
             # list building: the receiver variable gets a NEW constant (states of other paths keep theirs)
